@@ -860,7 +860,7 @@ class Exec:
             # an exception path into each handler (state of the try entry; effects of the body unknown)
             for h in s.handlers:
                 sth = st.copy()
-                sth.conds = sth.conds + ((("exc", ast.unparse(h.type) if h.type is not None else "BaseException", id(s)), True, h),)
+                sth.conds = sth.conds + ((("exc", ast.unparse(h.type) if h.type is not None else "BaseException", "try"), True, h),)
                 if h.name:
                     sth.env[h.name] = ("unk", "exception")
                 self._tick()
@@ -883,6 +883,9 @@ class Exec:
             yield from self._branch(s, False, s.orelse, st, fr, None)
         else:
             rt = residual(t, self.op)
+            if self.op is not None and _op_direct(rt):
+                raise AnalysisError("%s: the test `%s` (line %d) depends on the opcode in a way the interval analysis cannot decide" % (
+                    fr.func.qualname, ast.unparse(s.test)[:120], s.lineno))
             self._tick()
             st_f = st.copy()
             yield from self._branch(s, True, s.body, st, fr, rt)
@@ -1028,8 +1031,18 @@ class Exec:
                 return const(len(pyval(args[0], None)))
             except (_NoVal, TypeError):
                 return None
-        if fterm in (("builtin", "int"),) and len(args) == 1 and lin_of(args[0]) is not None and not is_const(args[0]):
+        if fterm == ("builtin", "range") and 1 <= len(args) <= 3:
+            try:
+                vals = [pyval(a, None) for a in args]
+                if all(isinstance(v, int) for v in vals):
+                    r = range(*vals)
+                    if len(r) <= 70000:
+                        return ("tuple",) + tuple(const(v) for v in r)
+            except (_NoVal, TypeError, ValueError):
+                pass
             return None
+        if fterm in (("builtin", "set"), ("builtin", "frozenset"), ("builtin", "tuple"), ("builtin", "list")) and len(args) == 1 and args[0][0] in ("tuple", "list", "set"):
+            return ("tuple",) + tuple(args[0][1:])
         if isinstance(fterm, tuple) and fterm[0] == "attr" and fterm[2] == "get_op_value" and not args and self.op is not None:
             return OP
         return None
@@ -1284,6 +1297,19 @@ class Exec:
         return ("binop", _BINNAME.get(type(op), type(op).__name__), a, b)
 
 
+def _op_direct(t):
+    """does the opcode occur in t other than inside the arguments of an opaque call / lookup?"""
+    if t == OP:
+        return True
+    if not isinstance(t, tuple) or not t:
+        return False
+    if isinstance(t[0], str):
+        if t[0] in ("call", "sub", "attr", "new", "elem", "item", "const"):
+            return False
+        return any(_op_direct(x) for x in t[1:] if isinstance(x, tuple))
+    return any(_op_direct(x) for x in t if isinstance(x, tuple))
+
+
 def _fname(fterm):
     if isinstance(fterm, tuple) and fterm:
         if fterm[0] in ("attr", "func"):
@@ -1512,12 +1538,17 @@ class Roles:
                 return ("OP",)
             if name == "get_ref_kind" and not args and rr == ("INS",):
                 return ("REFIDX",)
+            if name == "get_length" and not args and rr == ("INS",):
+                return ("INSLEN",)
             if name in ("get_vm",) and rr in (("CM",), ("METH", "CUR")):
                 return ("VM", "ins")
             if name in DECODERS and rr is not None and rr[0] == "VM" and len(args) == 1:
-                if R(args[0]) != ("REFIDX",):
+                ra = R(args[0])
+                if ra is None:
                     return None
                 pool = DECODERS[name]
+                if ra != ("REFIDX",):
+                    return ("WRONGIDX", pool, ra)
                 if rr[1] != "ins":
                     return ("WRONGVM", pool, rr)
                 if pool in ID_ITEM:
@@ -1641,6 +1672,10 @@ class Roles:
             return repr(r[1])
         if k == "WRONGVM":
             return "%s.get_cm_%s(ref_idx)" % (self.rname(r[2]), r[1])
+        if k == "WRONGIDX":
+            return "get_cm_%s(%s)" % (r[1], self.rname(r[2]) or "?")
+        if k == "INSLEN":
+            return "instruction.get_length()"
         if k == "LIN":
             parts = [(self.rname(a) or "?") if c == 1 else "%d*%s" % (c, self.rname(a) or "?") for a, c in r[1]]
             if r[2]:
@@ -1822,7 +1857,7 @@ def _pool_of_role(r):
                 return p
     if r[0] == "FIELD":
         return _pool_of_role(r[2]) or _pool_of_role(r[1])
-    if r[0] == "WRONGVM":
+    if r[0] in ("WRONGVM", "WRONGIDX"):
         return r[1]
     return None
 
@@ -1842,16 +1877,23 @@ CURCLS = ("CLS", ("CUR", "clsname"))
 CURM = ("METH", "CUR")
 OFFR = ("OFF",)
 
+_CU = {dalvik.CONST_CLASS_OP, dalvik.NEW_INSTANCE_OP}
 SPEC_OPS = {
-    ("method", "get_xref_to"): dalvik.INVOKE_OPS,
-    ("method", "get_xref_from"): dalvik.INVOKE_OPS,
-    ("type", "get_xref_to"): {dalvik.CONST_CLASS_OP, dalvik.NEW_INSTANCE_OP},
-    ("type", "get_xref_from"): {dalvik.CONST_CLASS_OP, dalvik.NEW_INSTANCE_OP},
-    ("type", "get_xref_new_instance"): {dalvik.NEW_INSTANCE_OP},
-    ("type", "get_xref_const_class"): {dalvik.CONST_CLASS_OP},
-    ("string", "get_xref_from"): dalvik.CONST_STRING_OPS,
-    ("field", "get_xref_read"): dalvik.FIELD_READ_OPS,
-    ("field", "get_xref_write"): dalvik.FIELD_WRITE_OPS,
+    ("method", "MethodAnalysis", "get_xref_to"): dalvik.INVOKE_OPS,
+    ("method", "MethodAnalysis", "get_xref_from"): dalvik.INVOKE_OPS,
+    ("method", "ClassAnalysis", "get_xref_to"): dalvik.INVOKE_OPS,
+    ("method", "ClassAnalysis", "get_xref_from"): dalvik.INVOKE_OPS,
+    ("type", "ClassAnalysis", "get_xref_to"): _CU,
+    ("type", "ClassAnalysis", "get_xref_from"): _CU,
+    ("type", "MethodAnalysis", "get_xref_new_instance"): {dalvik.NEW_INSTANCE_OP},
+    ("type", "ClassAnalysis", "get_xref_new_instance"): {dalvik.NEW_INSTANCE_OP},
+    ("type", "MethodAnalysis", "get_xref_const_class"): {dalvik.CONST_CLASS_OP},
+    ("type", "ClassAnalysis", "get_xref_const_class"): {dalvik.CONST_CLASS_OP},
+    ("string", "StringAnalysis", "get_xref_from"): dalvik.CONST_STRING_OPS,
+    ("field", "FieldAnalysis", "get_xref_read"): dalvik.FIELD_READ_OPS,
+    ("field", "MethodAnalysis", "get_xref_read"): dalvik.FIELD_READ_OPS,
+    ("field", "FieldAnalysis", "get_xref_write"): dalvik.FIELD_WRITE_OPS,
+    ("field", "MethodAnalysis", "get_xref_write"): dalvik.FIELD_WRITE_OPS,
 }
 # facts the property statements require for every instruction of the kind (owner class, getter)
 REQUIRED = {
@@ -1928,6 +1970,16 @@ class XrefRules:
         self.prop = prop
         self.root = xm.root
         self._field_roles = None
+        self.missing_reported = False
+
+    def sites_floor(self, minimum):
+        """no vacuous pass: the number of recording sites; a shortfall already reported as a violation
+        (missing record / unpaired record) is not reported a second time as an analysis error"""
+        n = getattr(self.s, "counts", {}).get("recording_sites", 0)
+        if n < minimum and not self.missing_reported:
+            self.s.floor("recording_sites", minimum)
+        elif hasattr(self.s, "floors"):
+            self.s.floors["recording_sites"] = (n, minimum)
 
     # ---- helpers -------------------------------------------------------------
     def rn(self, r):
@@ -2017,6 +2069,11 @@ class XrefRules:
             pools_here = []
             for f in p.facts:
                 pool = fact_pool(f)
+                if pool is None:
+                    # nothing in the record was decoded from the instruction: type it by the instruction kind
+                    sp = {spec_pool(k) for k in p.ops}
+                    if len(sp) == 1:
+                        pool = sp.pop()
                 f.pool = pool
                 if pool is None:
                     raise AnalysisError("%s: a record into %s.%s() has no classifiable target: %s"
@@ -2024,12 +2081,18 @@ class XrefRules:
                 if pool not in pools_here:
                     pools_here.append(pool)
                 st = f.site()
+                if st not in site_info:
+                    for q in f.ev.chain():
+                        fn = xm.m.functions.get(q)
+                        if fn is not None:
+                            s.analysed(fn)
                 site_ops.setdefault(st, set()).update(p.ops)
                 site_info.setdefault(st, (f, pool))
             for pool in pools_here:
                 if pool in pools:
                     self.check_path_facts(p, pool)
             self.check_coverage(p, pools)
+        self.n_paths = n_paths
         s.count("paths", n_paths)
         s.count("opcode_regions", xm.nparts)
         s.require(set(OP_DOMAIN) <= reached_ops, "%s: the instruction loop is not reached for opcodes %s" % (
@@ -2041,7 +2104,7 @@ class XrefRules:
             if pool not in pools:
                 continue
             s.count("recording_sites")
-            exp = SPEC_OPS.get((pool, f.getter))
+            exp = SPEC_OPS.get((pool, f.owner_cls, f.getter))
             inst = "%s.%s via %s" % (f.owner_cls, f.getter, "/".join(f.ev.chain()[1:]) or "direct")
             if exp is None:
                 s.check("opcode-sets", inst, False, self.root, self.site_construct(f), "a %s reference is recorded into %s.%s(), which the specification does not provide for"
@@ -2059,12 +2122,13 @@ class XrefRules:
                 for oc, g in REQUIRED[pool](k):
                     got = covered.get((pool, oc, g), set())
                     if k not in got:
+                        self.missing_reported = True
                         s.check("opcode-sets", "%s.%s" % (oc, g), False, self.root, "%s.%s: %s" % (oc, g, op_name(k)),
                                 "no path records %s into %s.%s()" % (op_name(k), oc, g), node=self.root.node)
             for (pl, oc, g), got in covered.items():
                 if pl == pool:
-                    s.ob("opcode-sets", "%s %s.%s covers" % (pool, oc, g), SPEC_OPS[(pool, g)] <= got,
-                         "every opcode of {%s} reaches the record" % op_set_str(SPEC_OPS[(pool, g)]))
+                    s.ob("opcode-sets", "%s %s.%s covers" % (pool, oc, g), SPEC_OPS[(pool, oc, g)] <= got,
+                         "every opcode of {%s} reaches the record" % op_set_str(SPEC_OPS[(pool, oc, g)]))
 
     def site_construct(self, f: Fact):
         return "%s.%s <- (%s)" % (self.rn(f.r_owner) if f.r_owner else self.R.render(f.owner), f.getter,
@@ -2171,6 +2235,7 @@ class XrefRules:
                 if (a in have) != (b in have):
                     present, absent = (a, b) if a in have else (b, a)
                     f0 = next(f for f in p.facts if (f.owner_cls, f.getter) == present)
+                    self.missing_reported = True
                     s.check("pairing", "%s.%s <-> %s" % (present + (absent[1],)), False, self.root,
                             "%s.%s without %s.%s" % (present + absent),
                             "a path through the %s branch records %s.%s() but not the mirror %s.%s() (conditions: %s)" % (
@@ -2197,7 +2262,8 @@ class XrefRules:
                 why = "the FieldAnalysis is keyed by %s, not by the EncodedField of the instruction's field reference" % self.rn(item)
         else:
             why = "the record is made on %s, not on a FieldAnalysis of the field's class" % self.rn(r)
-        s.check("origin", inst + " owner", ok, self.root, "%s.%s owner %s" % (f.owner_cls, f.getter, self.rn(r)),
+        where = self.rn(r[1]) + "._fields" if r[0] == "FIELD" else self.rn(r)
+        s.check("origin", inst + " owner", ok, self.root, "%s.%s kept in %s" % (f.owner_cls, f.getter, where),
                 "%s.%s(): %s (via %s)" % (f.owner_cls, f.getter, why, "/".join(f.ev.chain()[1:])), node=node,
                 detail="owner = FieldAnalysis of the target field in the field's own class")
 
@@ -2264,7 +2330,12 @@ class XrefRules:
                 continue
             culprit = p.guard or (p.conds[-1] if p.conds else None)
             if culprit is None:
-                continue  # no record at all for this opcode: reported by the opcode-set rule
+                # not recorded although nothing was tested on the way: reported by the opcode-set rule if no
+                # path records it at all, otherwise here (the record is missing on an unconditional path)
+                self.missing_reported = True
+                s.check("coverage", inst, False, self.root, "%s: %s not recorded" % (op_name(k), ", ".join("%s.%s" % x for x in missing)),
+                        "%s: no %s record is made" % (op_name(k), ", ".join("%s.%s" % x for x in missing)), node=self.root.node)
+                continue
             why = self.excuse(pool, culprit, None)
             atom, truthy = _norm_cond(culprit[0], culprit[1])
             s.check("coverage", inst, why is not None, self.root, "skip when %s is %s" % (self.R.render(atom), truthy),
@@ -2375,30 +2446,42 @@ def rule_resolve(sink, eng: Engine):
     sink.require(sts, "Analysis._resolve_method has no normal path")
     tables = set()
     hit = miss = 0
+    def _entry(ret):
+        return ret is not None and ret[0] == "sub" and ret[1][0] == "attr" and ret[1][1] == ROOT_SELF
+    sink.require(any(_entry(st.retval) for st in sts), "Analysis._resolve_method: no path returns an entry of a lookup table of the Analysis")
     for st in sts:
         ret = st.retval
-        sink.require(ret is not None and ret[0] == "sub" and ret[1][0] == "attr" and ret[1][1] == ROOT_SELF,
-                     "Analysis._resolve_method: a path returns %s, not an entry of a lookup table of the Analysis" % show(ret))
+        if not _entry(ret):
+            sink.check("resolution", "returns the shared entry", False, f, "returns %s" % _prender(ret, P),
+                       "a path of _resolve_method returns %s instead of the entry stored in the lookup table: the stub is not shared between call sites" % _prender(ret, P),
+                       node=f.node)
+            continue
         table, key = ret[1][2], ret[2]
         tables.add(table)
         # key shape
         comps = key[1:] if key[0] == "tuple" else None
         ok = comps is not None and len(comps) == 3 and all(_leaf_params(c) == {P[i]} for i, c in enumerate(comps))
+        if ok:
+            # class and name are used as they are; the descriptor arrives as the [parameters, return] list of the
+            # method reference and must be flattened with ''.join to equal the descriptor string Analysis.add stores
+            ok = comps[0] == P[0] and comps[1] == P[1] and comps[2] == mk_mcall(const(""), "join", (P[2],))
         sink.check("resolution", "lookup key", ok, f, "key %s" % _prender(key, P),
                    "the lookup key of _resolve_method is %s; specification: a triple (class name, method name, descriptor) built from the three parameters in this order" % _prender(key, P),
                    node=f.node, detail="key = (class_name, method_name, ''.join(descriptor))")
-        if not ok:
-            continue
         absent = [c for c in st.conds if _norm_cond(c[0], c[1]) in (((("cmp", "in", key, ("attr", ROOT_SELF, table))), False),)]
         stores = [e for e in st.events if e.kind == "store_sub" and e.base == ("attr", ROOT_SELF, table)]
         news = [x for e in st.events if e.kind == "store_sub" for x in subterms(e.value) if isinstance(x, tuple) and x and x[0] == "new" and x[1] == "ExternalMethod"]
         if not absent:
             hit += 1
+        else:
+            miss += 1
+        if not ok:
+            continue
+        if not absent:
             sink.check("resolution", "hit path", not stores and not news, f, "hit path of _resolve_method",
                        "a path on which the key is not known to be absent stores into the table or creates an ExternalMethod: the analysed method is not returned as is",
                        node=f.node, detail="returns the stored MethodAnalysis, creates nothing")
             continue
-        miss += 1
         inst = "miss path (%s)" % "; ".join("%s=%s" % (_prender(c, P)[:50], o) for c, o, _ in st.conds)
         ok1 = len(stores) == 1 and stores[0].key == key
         sink.check("resolution", inst + " one stub", ok1, f, "stub stores: %s" % ", ".join(_prender(e.key, P) for e in stores),
@@ -2831,6 +2914,8 @@ def rule_layering(sink, xm: XrefModel, resolve_states=()):
             seen.add(k)
             call_r = R.render(e.value)
             if r == ("VM", "positional"):
+                if e.name in DECODERS:
+                    n_dec += 1
                 sink.check("layering", "%s through a fixed DEX" % e.name, False, root, call_r,
                            "%s is called on a DEX picked by position from self.vms, not on the DEX the instruction belongs to" % e.name, node=e.root_node())
                 continue
@@ -2955,12 +3040,8 @@ def rule_accumulators(sink, eng: Engine):
                     if dl is None:
                         continue
                     atoms = list(dl[0].items())
-                    if not (len(atoms) == 1 and dl[1] == 0):
-                        if dl[1] == 1 and not atoms:
-                            continue  # a plain counter (nb += 1)
-                        if not atoms:
-                            # constant stride: not a length accumulator unless the name is compared with an offset
-                            pass
+                    if not atoms and not _used_as_offset(st, carried):
+                        continue  # a plain counter (nb += 1) that is neither yielded nor compared with an offset
                     # is this the offset accumulator?  its increment mentions an instruction length, or it is yielded / compared
                     looks = any(_is_len_term(a) for a, _ in atoms) or _used_as_offset(st, carried)
                     if not looks:
@@ -3513,13 +3594,32 @@ def m_const(old, new, nth=0):
 
 
 def m_replace_src(old, new, count=1):
-    """textual edit of the unparsed function (for edits that are awkward as tree surgery)"""
+    """textual edit of the unparsed function (for edits that are awkward as tree surgery).  `old` may be a
+    fragment of one line, or several whole lines (compared without indentation); continuation lines of `new`
+    are indented like the line the edit starts on (their own leading spaces are kept as relative indentation)."""
     def fn(node):
         src = ast.unparse(node)
-        if old not in src:
+        lines = src.split("\n")
+        olines = [l.strip() for l in old.split("\n")]
+        done = False
+        if len(olines) > 1:
+            for i in range(len(lines) - len(olines) + 1):
+                if [l.strip() for l in lines[i:i + len(olines)]] == olines:
+                    ind = lines[i][:len(lines[i]) - len(lines[i].lstrip())]
+                    lines[i:i + len(olines)] = [ind + l for l in new.split("\n")]
+                    done = True
+                    break
+        else:
+            for i, l in enumerate(lines):
+                if old in l:
+                    ind = l[:len(l) - len(l.lstrip())]
+                    repl = l.replace(old, new, 1).split("\n")
+                    lines[i:i + 1] = [repl[0]] + [ind + x for x in repl[1:]]
+                    done = True
+                    break
+        if not done:
             return False
-        src2 = src.replace(old, new, count)
-        newn = ast.parse(src2).body[0]
+        newn = ast.parse("\n".join(lines)).body[0]
         node.body = newn.body
         node.args = newn.args
         for parent in ast.walk(node):
